@@ -71,7 +71,7 @@ Done == st = "done"
 \* k-th sidecar block belongs to the k-th present sidecar
 PresentSeq == SelectSeq([i \in 1..NExt |-> i], LAMBDA i : c.sc[i].p)
 
-M_GammaFaithful == \A i \in Present(c) : Printable(c.sc[i].lines) =>
+M_GammaFaithful == \A i \in Present(c) : (Printable(c.sc[i].lines) /\ TotalLen(c.sc[i].lines) < Hint) =>
                         PhysLines(TextOf(c.sc[i].lines, c.sc[i].nl)) = c.sc[i].lines
 M_OneBlockPerSidecar == Done => /\ Len(out.sblocks) = Len(PresentSeq)
                                 /\ \A k \in 1..Len(PresentSeq) : out.sblocks[k].name = "+" \o EaExts[PresentSeq[k]].name
@@ -99,7 +99,7 @@ M_ViewsTruthful == Done => ViewsLineOk(out.views, MimesOf(c.kind, c.ext), SizeOf
 M_LenOrMarker == Done => LenOrMarker(out.len, IF SizeOf(c) >= 0 THEN SizeOf(c) ELSE 0, SizeOf(c))
 M_InfoFirst == Done => Len(out.names) >= 3 /\ out.names[1] = "+INFO" /\ out.names[2] = "+ADMIN"
 
-ASSUME CapCount(<<10, 10, 10>>, 15, 0) = 2 /\ CapCount(<<10, 10>>, 100, 0) = 2 /\ CapCount(<<>>, 5, 0) = 0
+ASSUME CapCount(<<10, 10, 10>>, 15) = 2 /\ CapCount(<<10, 10>>, 100) = 2 /\ CapCount(<<>>, 5) = 0 /\ CapCount(<<10, 10, 10>>, 5) = 1
 ASSUME SplitLines("a\n\nb\n") = <<"a", "", "b">> /\ SplitLines("") = <<>> /\ SplitLines("\n") = <<"">>
 ASSUME SplitLines("a\r\nb\fc") = <<"a", "b", "c">>
 ASSUME PhysLines("a\n\n") = <<"a", "">> /\ PhysLines("") = <<>> /\ PhysLines("a") = <<"a">>
